@@ -22,7 +22,7 @@ Definition vfun (visit : option visit_fn) : visit_fn :=
   match visit with Some f => f | None => fun _ _ _ => Put None None end.
 
 Definition evisits (lg : list event) : list (path * key * val) :=
-  flat_map (fun e => match e with EVisit p k v => [(p, k, v)] | _ => [] end) lg.
+  flat_map (fun e => match e with EVisit p k _ v => [(p, k, v)] | _ => [] end) lg.
 
 Definition calls_opt (visit : option visit_fn) (p : path) (v : val) : list (path * key * val) :=
   match visit with Some f => calls f p v | None => [] end.
@@ -251,7 +251,7 @@ Section Tree.
       destruct (children_tree items IH Ht Hnd' cp [] _ _ _ _ _ Hm' EC) as [Ha Hl].
       cbn [erase]. fold (eitems items). fold (eitems (build erase k items')).
       rewrite rebuild_node, build_erase, Ha. cbn [eitems map app]. split; [reflexivity|].
-      assert (Hex : forall l e, match e with EVisit _ _ _ => False | _ => True end -> evisits (l ++ [e]) = evisits l).
+      assert (Hex : forall l e, match e with EVisit _ _ _ _ => False | _ => True end -> evisits (l ++ [e]) = evisits l).
       { intros l e He. unfold evisits. rewrite flat_map_app. destruct e; try contradiction; cbn; apply app_nil_r. }
       rewrite (Hex lg1 (EExit p ky id (shallow_items items')) I).
       rewrite Hl.
